@@ -172,3 +172,11 @@ harness('h_extdef::c12_ipv4_exts', ['C12'], 'complete (presence x link x first),
 harness('h_extdef::c12_ip_headers_v6_walk', ['C12'], 'complete for walk domain', 'IpHeaders::Ipv6 next_header()==ref walk, header_len==40+exts', tier='thorough', bound='payload sizes minimal', timeout=1800, heavy=True)
 harness('h_extdef::c12_ip_headers_ether_type_v6', ['C12'], 'complete for walk domain', 'IpHeaders/NetHeaders set_next_headers -> 0x86DD, first link, same links', tier='quick', bound='payload sizes minimal', timeout=900)
 harness('h_extdef::c12_ip_headers_ether_type_v4', ['C12'], 'complete (presence x link x protocol)', 'IPv4: 0x0800, protocol field, next_header, header_len', tier='quick', bound='ICV 0B, no options', timeout=300)
+
+# ---- trusted base of engine V: value specs assumed in vxlib/vx.rs and in the SLL contract files, proved on the full domain ---------
+for _n, _w in [('vx_u16_from_be_bytes', 'u16::from_be_bytes == b0*256+b1'), ('vx_u32_from_be_bytes', 'u32::from_be_bytes value'),
+               ('vx_u64_from_be_bytes', 'u64::from_be_bytes value'), ('vx_from_ne_bytes_little_endian', 'from_ne_bytes on this (little-endian) target'),
+               ('vx_overflowing_add', 'overflowing_add (u64, u32): wrapped sum and carry'), ('vx_u16_to_be', 'u16::to_be is the byte swap'),
+               ('vx_sll_packet_type_try_from', 'assumed spec of TryFrom<u16> for LinuxSllPacketType'),
+               ('vx_sll_protocol_type_try_from', 'assumed spec of TryFrom<(ArpHardwareId,u16)> for LinuxSllProtocolType, From<u16> for ArpHardwareId')]:
+    harness('h_vxlib::' + _n, ['C01', 'C09'] if 'sll' not in _n else ['C01'], 'complete (loop-free or width-bounded, full input domain)', 'trusted-base check: ' + _w, tier='quick', timeout=300)
